@@ -10,6 +10,7 @@ package c09
 import (
 	"fmt"
 	"sort"
+	"strings"
 
 	"verif/internal/engine"
 	"verif/internal/gen"
@@ -21,16 +22,16 @@ import (
 // bigCase is one structured graph with its closed-form values (-1 = not
 // tabulated / not to be judged).
 type bigCase struct {
-	name                              string
-	g                                 *rg.G
+	name                             string
+	g                                *rg.G
 	omega, alpha, chi, chiIdx, degen int
-	nCliques                          int       // number of maximal cliques, -1 unknown
-	cliques                           [][]int   // all maximal cliques (nil: only the count, or nothing, is known)
-	callAlpha                         bool      // IndependenceNumber is cheap (few maximal independent sets)
-	callIndex                         bool      // ChromaticIndex is cheap (small line graph whose chi equals its omega)
-	callCliques                       bool      // AllMaximalCliques (few enough cliques)
-	callChi                           bool      // ChromaticNumber / IsKColorable are cheap
-	ksBelow                           bool      // IsKColorable(chi-1) is cheap as well
+	nCliques                         int     // number of maximal cliques, -1 unknown
+	cliques                          [][]int // all maximal cliques (nil: only the count, or nothing, is known)
+	callAlpha                        bool    // IndependenceNumber is cheap (few maximal independent sets)
+	callIndex                        bool    // ChromaticIndex is cheap (small line graph whose chi equals its omega)
+	callCliques                      bool    // AllMaximalCliques (few enough cliques)
+	callChi                          bool    // ChromaticNumber / IsKColorable are cheap
+	ksBelow                          bool    // IsKColorable(chi-1) is cheap as well
 }
 
 func edgesAsCliques(g *rg.G) [][]int {
@@ -169,9 +170,9 @@ func completeMultipartiteCase(name string, sizes []int) bigCase {
 	return bc
 }
 
-// bigFamilies returns the structured graphs for size parameter n.  small:
-// build everything (self-check at small n), else apply the per-function cost
-// rules measured on this machine (each guarded call stays far below the budget).
+// bigFamilies returns the structured graphs of order n with the per-function
+// cost rules (call... flags) measured on this machine: each guarded call
+// stays far below the budget for a correct implementation.
 func bigFamilies(n int) []bigCase {
 	var out []bigCase
 	add := func(b bigCase) { out = append(out, b) }
@@ -246,7 +247,10 @@ func bigFamilies(n int) []bigCase {
 	}
 	// complete multipartite with many parts: n-8 singletons and parts 2,3,3
 	if n >= 10 {
-		sizes := ones(n - 8)
+		sizes := make([]int, n-8)
+		for i := range sizes {
+			sizes[i] = 1
+		}
 		sizes = append(sizes, 2, 3, 3)
 		add(completeMultipartiteCase(fmt.Sprintf("K_1x%d,2,3,3", n-8), sizes))
 	}
@@ -352,7 +356,7 @@ func bigUnits(c *engine.Ctx) {
 				// only the cocktail party graph at the extra sizes
 				var keep []bigCase
 				for _, b := range fams {
-					if len(b.name) > 8 && b.name[:8] == "cocktail" {
+					if strings.HasPrefix(b.name, "cocktail") {
 						keep = append(keep, b)
 					}
 				}
